@@ -78,11 +78,11 @@ def readAll : List Annot → Outcome (List Property)
     | .err t => .err t
     | .panic w => .panic w
 
-/-- `srcMsg.Fields().ByName("keys")` … `.Message()` … `(j5.ext.v1.psm)` of that message. The proto
-name of a lowerCamel j5 name is `keys` only for the name `keys` (strcase is a parameter of this
-cluster). A map field's message is its entry message, which has no annotation. -/
+/-- `srcMsg.Fields().ByName("keys")` … `.Message()` … `(j5.ext.v1.psm)` of that message: the field
+whose PROTO name (`snakeName` of the declared name) is `keys`. A map field's message is its entry
+message, which has no annotation. -/
 def keysLookup (env : RefPsm) (ps : List Property) : Option PsmOpt :=
-  match ps.find? (fun p => p.name == "keys") with
+  match ps.find? (fun p => snakeName p.name == "keys") with
   | some p =>
     (match p.schema with
      | .map _ _ _ => none
